@@ -184,9 +184,21 @@ func drawDialectModel(t *rapid.T, idx int) XDialect {
 			nent := rapid.IntRange(1, 6).Draw(t, "nentries")
 			// ordinary enums that merely look like flag sets (all values powers of two) stay ordinary
 			flagLike := !e.Bitmask && rapid.IntRange(0, 4).Draw(t, "flag_like") == 0
+			// an ordinary enum whose values are exactly 0..n-1, listed in any order (definitions are not sorted, and
+			// an includer that fills a hole of an included enum lists the filler last)
+			var dense []int
+			if !e.Bitmask && !flagLike && !extend && nent >= 2 && rapid.IntRange(0, 3).Draw(t, "dense_values") == 0 {
+				idx := make([]int, nent)
+				for k := range idx {
+					idx[k] = k
+				}
+				dense = rapid.Permutation(idx).Draw(t, "dense_order")
+			}
 			for j := 0; j < nent; j++ {
 				var v uint64
-				if flagLike {
+				if dense != nil {
+					v = uint64(dense[j])
+				} else if flagLike {
 					v = uint64(1) << uint(rapid.IntRange(0, 10).Draw(t, "bit"))
 				} else if e.Bitmask {
 					v = uint64(1) << uint(rapid.OneOf(rapid.IntRange(0, 12), rapid.IntRange(0, 63)).Draw(t, "bit"))
@@ -273,7 +285,7 @@ func drawDialectModel(t *rapid.T, idx int) XDialect {
 					f.Type = rapid.SampledFrom(primTypes).Draw(t, "ftype")
 				case k < 7:
 					f.Type = rapid.SampledFrom(primTypes).Draw(t, "ftype")
-					f.ArrayLen = rapid.OneOf(rapid.IntRange(1, 6), rapid.IntRange(1, 60)).Draw(t, "arr")
+					f.ArrayLen = rapid.OneOf(rapid.IntRange(1, 6), rapid.IntRange(1, 60), rapid.IntRange(120, 250)).Draw(t, "arr") // long ones only fit with one-byte elements
 				case k < 8:
 					f.Type = "uint8_t_mavlink_version"
 				case k < 10 && len(allEnums) > 0:
